@@ -1,9 +1,9 @@
 (* Model of skyllh/core/parameters.py: Parameter, ParameterSet, ParameterModelMapper
    (current /repo, i.e. after the fix: commits 26ba7e8, a6f00b3, 38184bc, 9f2340d,
-   b3880d5).  Definitions only.
+   b3880d5, afa632e).  Definitions only.
 
-   Parameter objects are mutable and can be shared between parameter sets
-   (ParameterSet.union, ParameterSet(params=other)), so they live in a store
+   Parameter objects are mutable and are referenced (not contained) by the
+   parameter sets, so they live in a store
    (a list; location = position; allocation appends).  A ParameterSet carries
    all of its redundant caches literally.  Names (global and local) and values
    are integers: names are opaque identifiers compared by equality / order,
@@ -311,27 +311,29 @@ Definition make_params_floating (st : store) (s : pset) (req : floatreq) : store
   | Ok _ => float_loop req (ps_params s) 0 st (clear_caches s)
   end.
 
-(* --- ParameterSet(params=seq) / union: repeated add_param at the back of
-   existing Parameter objects; `skip` = union's `if not has_param` *)
-Fixpoint add_all (st : store) (s : pset) (locs : list nat) (skip : bool) : res pset :=
+(* --- union (after fix afa632e): the new set holds COPIES (deepcopy) of the
+   Parameter objects, added at the back one by one; `skip` = union's
+   `if not has_param`.  The copy of the object at l is allocated at the end of
+   the store. *)
+Fixpoint add_copies (st : store) (s : pset) (locs : list nat) (skip : bool) : res (store * pset) :=
   match locs with
-  | [] => Ok s
+  | [] => Ok (st, s)
   | l :: r =>
       do p <- rd st l;
-      if skip && has_param s (p_name p) then add_all st s r skip
-      else do s' <- add_param s l p false; add_all st s' r skip
+      if skip && has_param s (p_name p) then add_copies st s r skip
+      else do s' <- add_param s (length st) p false; add_copies (st ++ [p]) s' r skip
   end.
 
-Fixpoint union_rest (st : store) (s : pset) (srcs : list pset) : res pset :=
+Fixpoint union_rest (st : store) (s : pset) (srcs : list pset) : res (store * pset) :=
   match srcs with
-  | [] => Ok s
-  | x :: r => do s' <- add_all st s (ps_params x) true; union_rest st s' r
+  | [] => Ok (st, s)
+  | x :: r => do ss <- add_copies st s (ps_params x) true; union_rest (fst ss) (snd ss) r
   end.
 
-Definition union (st : store) (srcs : list pset) : res pset :=
+Definition union (st : store) (srcs : list pset) : res (store * pset) :=
   match srcs with
   | [] => Err ValueError
-  | x :: r => do s <- add_all st empty_pset (ps_params x) false; union_rest st s r
+  | x :: r => do ss <- add_copies st empty_pset (ps_params x) false; union_rest (fst ss) (snd ss) r
   end.
 
 (* --- copy() = deepcopy: fresh Parameter objects, caches copied literally *)
@@ -635,7 +637,7 @@ Definition step (w : world) (o : op) : world * option err :=
       | Ok srcs =>
           match union (w_store w) srcs with
           | Err e => (w, Some e)
-          | Ok s => (mkWorld (w_store w) (w_map w) (w_sets w ++ [s]), None)
+          | Ok (st', s) => (mkWorld st' (w_map w) (w_sets w ++ [s]), None)
           end
       end
   | OCopy r =>
